@@ -39,15 +39,26 @@ ASSUMPTIONS = [
     "holders are built by mc/holders.py from explicit descriptors",
 ]
 BOUNDS = {
-    "quick": "shapes order<=3,size<=3,cells<=12 (35 shapes); shape mismatches: every permutation, +/- singleton mode, "
-             "mode->1, mode+1, flatten/merge; holders tensor / sptensor (all stored, one stored, none stored) / "
-             "ktensor rank 2 / ttensor core 2..2 / sumtensor; ttm matrices 1..4 x 1..4 both transposes; permute: all "
-             "sequences over {-1..N} of length N plus shorter/longer; matricization: all (rdims, cdims) sequence "
-             "pairs of total length <= N (+1 for rdims only); reshape targets: all shapes order<=3,size<=4,cells<=16; "
-             "constructors and algorithm options per shape (algorithms: order 2-3 shapes with cells<=12, 1 iteration)",
-    "thorough": "adds shapes order<=4,size<=3,cells<=16 (order-4 part) for the shape/mode groups, (rdims, cdims) "
-                "pairs of total length <= N+1, ttensor cores of size 1, second value seed for sparse patterns, "
-                "tensor-valued scale factors over every ordered mode pair",
+    "quick": "shapes order<=3,size<=3,cells<=12 (35 shapes) for every group; second-operand shapes: every permutation, "
+             "+/- a singleton mode, one mode->1, one mode+1, flattened / merged (same count); holders tensor / sptensor "
+             "(all cells stored, one stored, none stored) / ktensor rank 2 / ttensor core 2..2 / sumtensor(tensor+ktensor); "
+             "ttv lengths size+1, 1, 2*size per mode, every single/pair mode selection, out-of-range/negative/repeated "
+             "position, wrong multiplicand counts; ttm matrices 1..4 x 1..4 per mode, both transposes; mttkrp lists "
+             "short/long, rows +1 / 1, columns R+1 / 1 per used factor, n = N / -1; ttt: all shape pairs with "
+             "cells product <= 36, all single and ordered pairs of contracted modes; permute: all sequences over "
+             "{-1..N} of length N plus all N-1 / N+1 extensions; matricization: all (rdims, cdims) sequence pairs over "
+             "range(N) of total length <= N, rdims-only up to N+1, -1 / N insertions; reshape targets all shapes "
+             "order<=3,size<=4,cells<=16; constructors: data lengths 1..16, coordinate lists with each coordinate -1 / "
+             "extent, column and count mismatches, Kruskal/Tucker column counts R+1 / 1 per factor, every (rdims | cdims) "
+             "split x every divisor matrix shape for tenmat/sptenmat, Khatri-Rao 2-3 matrices; algorithms (1 iteration) "
+             "on the 2-3 way shapes with >= 4 cells: every dimorder permutation / 5 non-permutations, guesses with each "
+             "mode +1 / ->1, rank +-1, order +-1, reversed; import_data files for shapes cells<=8; in-place: every "
+             "ascending update list of <= 3 modes x data exact / -1 / -R / 1, region writes on shapes order<=2,size<=3 "
+             "x every region [0,hi) hi<=size+2 x every right-hand-side shape",
+    "thorough": "adds every 4-way shape with size<=3,cells<=16 to all shape/mode groups (N=4: 6^4 permute sequences, "
+                "(rdims, cdims) pairs of total length <= N+1 for every N), ttensor operands with an all-ones core, "
+                "sparse second operands with one stored entry, scale factors over every increasing mode pair, ttt "
+                "pairs up to cells product 64, algorithms also on (2,2,2,2),(3,2,1,2), region writes on (2,2,2)",
 }
 CHUNK = 150
 
@@ -69,7 +80,9 @@ def hd(kind, shape, seed=0, salt=0, core=None):
         return {"kind": "sptensor", "shape": shape, "pat": pat, "vseed": seed + salt, "order": None}
     if kind == "ktensor":
         return {"kind": "ktensor", "shape": shape, "rank": 2, "weights": [2.0, -1.0], "salt": salt, "vseed": seed}
-    if kind == "ttensor":
+    if kind in ("ttensor", "ttensor_c1"):
+        if kind == "ttensor_c1":
+            core = [1] * len(shape)
         return {"kind": "ttensor", "shape": shape, "core_shape": list(core) if core else [2] * len(shape),
                 "core": "dense", "core_pat": None, "salt": salt, "vseed": seed}
     if kind == "sumtensor":
@@ -78,7 +91,7 @@ def hd(kind, shape, seed=0, salt=0, core=None):
 
 
 def cname(kind):
-    return "sptensor" if kind.startswith("sp_") else kind
+    return "sptensor" if kind.startswith("sp_") else "ttensor" if kind.startswith("ttensor") else kind
 
 
 def A_h(kind, shape, seed=0, salt=0):
@@ -256,6 +269,9 @@ def mode_seq_kind(seq, n):
 def g_innerprod(tier, seed):
     recvs = ["tensor", "sp_full", "sp_one", "sp_empty", "ktensor", "ttensor", "sumtensor"]
     others = ["tensor", "sp_full", "sp_empty", "ktensor", "ttensor"]
+    if tier == "thorough":   # Tucker operands whose core is smaller than the tensor (other code path)
+        recvs.append("ttensor_c1")
+        others.append("ttensor_c1")
     for s in _shapes(tier):
         alts = [("control", s)] + [("shape", t) for _, t in mismatches(s)]
         mks = [None] + [k for k, _ in mismatches(s)]
@@ -360,7 +376,7 @@ def _wrong_lengths(sn):
 def g_ttv(tier, seed):
     for s in _shapes(tier):
         n = len(s)
-        for hk in TTV_HOLDERS:
+        for hk in TTV_HOLDERS + (("ttensor_c1",) if tier == "thorough" else ()):
             op = cname(hk) + ".ttv"
             r = hd(hk, s, seed)
             info = dict(hk=hk, shape=list(s))
@@ -405,7 +421,7 @@ TTM_HOLDERS = ("tensor", "sp_full", "sp_empty", "ttensor")
 def g_ttm(tier, seed):
     for s in _shapes(tier):
         n = len(s)
-        for hk in TTM_HOLDERS:
+        for hk in TTM_HOLDERS + (("ttensor_c1",) if tier == "thorough" else ()):
             op = cname(hk) + ".ttm"
             r = hd(hk, s, seed)
             info = dict(hk=hk, shape=list(s))
@@ -451,7 +467,7 @@ def g_mttkrp(tier, seed):
         n = len(s)
         if n < 2:
             continue
-        for hk in MTTKRP_HOLDERS:
+        for hk in MTTKRP_HOLDERS + (("ttensor_c1",) if tier == "thorough" else ()):
             op = cname(hk) + ".mttkrp"
             r = hd(hk, s, seed)
             info = dict(hk=hk, shape=list(s))
